@@ -360,7 +360,13 @@ def run_ctor(case):
     fill_rows(c, case["rows2"], not case["numpy"])
     require(snapshot(a) == da, "interference", f"filling the second/third {case['ctor']} changed the first", sig)
     # reading never changes: every read accessor the object has (1-D and 2-D views), twice
-    for h_, what_ in ((a, "first"), (b, "second")):
+    # (the histograms with 2-D views are read in every construction case: they have by far the most read accessors)
+    grids = []
+    for nm in ("TwoDimensionallySparselyHistogram", "TwoDimensionallyHistogram"):
+        g = ctor_table()[nm]()
+        fill_rows(g, case["rows1"] + case["rows2"], case["numpy"])
+        grids.append((g, nm + " filled with both row sets"))
+    for h_, what_ in ((a, "first"), (b, "second"), *grids):
         snap = snapshot(h_)
         for _ in range(2):
             accessors(h_)
